@@ -69,6 +69,23 @@ theorem http11_keeps_the_connection_by_default (x : XW) (st : Nat) (cl : Bool)
   have : (x.reqMinor == 0) = false := by simp; omega
   simp [clientAsked, asks, hc, this]
 
+theorem takeThrough_map_length {α β : Type} (f : α → β) (p : β → Bool) (l : List α) :
+    (takeThrough p (l.map f)).length = (takeThrough (fun a => p (f a)) l).length := by
+  induction l with
+  | nil => rfl
+  | cons a r ih => simp only [List.map_cons, takeThrough]; split <;> simp [ih]
+
+/-- **The connection is served exactly until the first exchange in which a side asks to close**: for
+any sequence of exchanges (each with its own versions, Connection headers, framing and status;
+no-op modifiers, complete origin responses) the number of requests the proxy reads is the length of
+the prefix up to and including the first exchange whose client or origin asked (or all of them). -/
+theorem served_until_a_side_asks (sd : Bool) (base : Nat) (ws : List (XW × Nat)) :
+    numReads (runConn sd base (ws.map fun w => toItem w.1 .pass .pass (.ok w.2 false))) =
+      (takeThrough (fun w => clientAsked w.1 || originAsked w.1 || sd) ws).length := by
+  have h := numReads_run sd base {} 0 [] (ws.map fun w => toItem w.1 .pass .pass (.ok w.2 false))
+  rw [takeThrough_map_length] at h
+  simpa [runConn, closes_iff_asked_over_versions] using h
+
 /-! ### What is written -/
 
 theorem containsToken_head (t : Bytes) (rest : List Bytes) (h : valueContainsToken t t = true) :
